@@ -234,7 +234,9 @@ class ExcelCompiler:
                 ymlo.dump(extra_data, f)
         else:
             with open(filename, 'w') as f:
-                json.dump(extra_data, f, indent=4)
+                # characters as they are, the loader does not join the
+                # surrogate pairs json uses to escape non BMP characters
+                json.dump(extra_data, f, indent=4, ensure_ascii=False)
 
         del extra_data['cell_map']
 
